@@ -3,6 +3,7 @@ package njcheck
 import (
 	"encoding/json"
 	"fmt"
+	"regexp"
 	"sort"
 	"strconv"
 	"strings"
@@ -186,6 +187,23 @@ func keysOf(m map[string]string) []string {
 		out = append(out, k)
 	}
 	return out
+}
+
+// stampRE masks wall-clock stamps so that case keys are reproducible for a seed.
+var stampRE = regexp.MustCompile(`\d{4}-\d{2}-\d{2}T\d{2}:\d{2}:\d{2}(Z|[+-]\d{2}:\d{2})`)
+
+// Classes documents the precisely attributed difference classes (violation keys) and the predicate proving each.
+var Classes = map[string]string{
+	KeyDeleteBodyID:   "the in-memory head lists a body id in keys/keyrange (or emits {} / the bare id for it in a query scan) although its own HEAD key/<id> is 404 and the store path does not list it; nothing else differs",
+	KeyZeroRetained:   "fields?counts=true of the in-memory head has a field with count 0 that the store path does not have (fields: an empty-string entry per such field)",
+	KeyNullDrift:      "the in-memory count of field F exceeds the store's count by exactly the number of accepted POSTs that set an existing F to null since the in-memory database was built",
+	KeyRangeLex:       "mixed-length ids only: head answer = keys k with beg<=k<=end numerically; store answer = keys that are in range numerically AND as decimal strings",
+	KeyRangeValuesLex: "mixed-length ids only: head answer = keys in range numerically; store answer = keys in range as decimal strings; common keys carry equal values",
+	KeyQueryOrder:     "mixed-length ids only: same elements; head in ascending body id, store path in ascending decimal-string order",
+	KeyQueryFields:    "query with fields=: every head element equals the documented projection (bodyid + listed fields + stamps per show) of the store's annotation, every store element equals the whole annotation",
+	KeyUntypedList:    "the store path matches annotations the head does not; each of them got, since the in-memory database was built, a list value posted with mixed integer/float syntax (e.g. [1,2.0]) in a field named by the query",
+	KeyFieldTimes:     "GET fieldtimes of the same head version differs before/after a restart",
+	KeySchemaLocked:   "GET/HEAD json_schema is 404 on the open head but 200 on its committed parent; the worker was started while the master head was committed and json_schema was not posted since",
 }
 
 const (
@@ -455,7 +473,7 @@ func (s *Seq) compareSnaps(bt []Rq, a, b *Snap, kind, what string, nontrivial bo
 			continue // only defined for the in-memory head
 		}
 		aa, bb := a.Ans[i], b.Ans[i]
-		s.C.Case(kind+"|"+q.String()+"|"+drv.Hash(strings.Join(aa.Items, "\x00"), fmt.Sprint(aa.Status)), nontrivial)
+		s.C.Case(kind+"|"+q.String()+"|"+drv.Hash(stampRE.ReplaceAllString(strings.Join(aa.Items, "\x00"), "<t>"), fmt.Sprint(aa.Status)), nontrivial)
 		s.C.Seen("endpoint_forms", q.Class+"/"+q.Norm+"/"+q.QClass)
 		s.C.Count("comparisons_"+kind, 1)
 		if aa.Nullish != bb.Nullish {
